@@ -30,6 +30,16 @@ def main():
     except ValueError:
         seed = 0
     os.chdir(common.VERIF)
+    # whole-check watchdog: a check that does not finish is an infrastructure failure (exit 2)
+    import threading
+    limit_s = int(os.environ.get("VERIF_TIMEOUT", "1500" if args.tier == "quick" else "14000"))
+
+    def _expired():
+        print(f"[{prop}] infrastructure failure: check did not finish within {limit_s} s", file=sys.stderr, flush=True)
+        os._exit(2)
+    wd = threading.Timer(limit_s, _expired)
+    wd.daemon = True
+    wd.start()
     try:
         mod = importlib.import_module("props." + prop.lower())
     except ImportError as e:
